@@ -333,6 +333,13 @@ func genMixed(rng *rand.Rand, kind string) Scenario {
 		}
 		sc.StopAt = &t
 		sc.QueryAfterStop = rng.Intn(2) == 0
+		if rng.Intn(10) < 6 {
+			// Submissions racing Stop: further batches are handed to Query
+			// at the very trigger at which Stop is called.
+			for j, nx := 0, 2+rng.Intn(3); j < nx; j++ {
+				sc.Batches = append(sc.Batches, BatchSpec{Opt: genOpt(rng), Submit: t, NReq: 1 + rng.Intn(3)})
+			}
+		}
 	case "reconnect":
 		// Peer 0 disconnects while working (first or second request) and
 		// comes back under the same address. Plenty of queued work so the
